@@ -7,6 +7,8 @@ import PicoVerif.Model.Compress
 import PicoVerif.Model.P8Png
 import PicoVerif.Spec.Stream
 import PicoVerif.Spec.Formats
+import PicoVerif.Model.Lexer
+import PicoVerif.Model.Writers
 /-! Line-protocol driver over the executable models (compiled; must not import Mathlib).
 One request per line: `op arg arg ...`; one response line per request.
 Byte strings travel as lower-case hex (`-` = empty). -/
@@ -84,6 +86,26 @@ def parseCart (v code gfx gff map sfx mus lbl : String) : Option P8File.Cart := 
   let sfx ← parseHex sfx; let mus ← parseHex mus
   let label ← (if lbl == "none" then some none else (parseHex lbl).map some)
   pure { version, code, gfx, gff, map, sfx, music := mus, label }
+
+def showTok (t : Lex.Tok) : String :=
+  let q := match t.mlq, t.quote with
+    | some d, _ => s!"m{d.length}"
+    | none, some q => toString q.toNat
+    | none, none => "-"
+  s!"{t.kind.str}.{showHex t.data}.{t.line}.{t.col}.{q}"
+
+def showToks (r : Except Err (List Lex.Tok)) : String :=
+  match r with
+  | .ok ts => "ok " ++ (if ts.isEmpty then "-" else " ".intercalate (ts.map showTok))
+  | .error e => showErr e
+
+def parseChunks (s : String) : Option (List Bytes) := if s == "." then some [] else (s.splitOn ":").mapM parseHex
+
+def nameCfg (mode keep : String) : Option Wr.NameCfg :=
+  if mode == "default" then some {}
+  else if mode == "keepall" then some { keepAll := true }
+  else if mode == "keepfile" then (parseHex keep).map fun c => { keep := some (Wr.readNamesFile c) }
+  else none
 
 def rowsOfFlat (w : Nat) (flat : Bytes) : List Bytes := chunks (4 * w) flat
 
@@ -277,6 +299,31 @@ def handle (st : St) (line : String) : St × String :=
       match P8Png.fromPixels (rowsOfFlat w r) with
       | .ok c => showCart c
       | .error e => showErr e
+    | _, _ => "bad-op"
+  -- lexer and token-stream writers
+  | ["lex", cs] => (parseChunks cs).elim "bad-op" fun l => showToks (Lex.lex l)
+  | ["echo", cs] => (parseChunks cs).elim "bad-op" fun l =>
+      match Lex.lex l with
+      | .ok ts => "ok " ++ showRows (Wr.echoLines ts [])
+      | .error e => showErr e
+  | ["minify", mode, keep, cs] =>
+    match nameCfg mode keep, parseChunks cs with
+    | some cfg, some l =>
+      match Lex.lex l with
+      | .ok ts => "ok " ++ showHex (Wr.minify cfg ts)
+      | .error e => showErr e
+    | _, _ => "bad-op"
+  | ["tokcount", cs] => (parseChunks cs).elim "bad-op" fun l =>
+      match Lex.lex l with
+      | .ok ts => s!"ok {Wr.tokenCount ts}"
+      | .error e => showErr e
+  | ["nameforid", n] => (n.toNat?).elim "bad-op" fun n => "ok " ++ showHex (Wr.nameForId n)
+  | "shortnames" :: mode :: keep :: names =>
+    match nameCfg mode keep, names.mapM parseHex with
+    | some cfg, some ns =>
+      let (_, out) := ns.foldl (fun (acc : Wr.NameSt × List Bytes) n =>
+        let (st', r) := Wr.getShortName cfg acc.1 n; (st', acc.2 ++ [r])) ({}, [])
+      "ok " ++ showRows out
     | _, _ => "bad-op"
   | _ => "bad-op")
 
